@@ -680,7 +680,6 @@ static void run_op(const std::vector<std::string> &w, const std::string &, out &
         // type widths, struct sizes, constants the model embeds, read out of the compiled code (C++ TU and C -O2 TU)
         struct dlist_head dh; igris::dlist_node xn_; XList xl_;
         char b2[128]; c01_o2_widths(b2, sizeof b2);
-        char p[64]; snprintf(p, sizeof p, "%lx %lx", (unsigned long)(uintptr_t)DLIST_POISON1, (unsigned long)(uintptr_t)DLIST_POISON2);
         // the bound of dlist_is_correct, measured: the longest well-formed ring it accepts
         int bound = 0;
         {
@@ -693,7 +692,7 @@ static void run_op(const std::vector<std::string> &w, const std::string &, out &
               " size_t=" + std::to_string(sizeof(xn_.circular_size())) + "," + std::to_string(sizeof(xl_.size())) +
               " ptr=" + std::to_string(sizeof(void *)) + " structs=" + std::to_string(sizeof(struct dlist_head)) + "," + std::to_string(sizeof(struct slist_head)) + "," +
               std::to_string(sizeof(struct hlist_node)) + "," + std::to_string(sizeof(struct hlist_head)) + "," + std::to_string(sizeof(igris::dlist_node)) + "," + std::to_string(sizeof(XList)) +
-              " c=" + b2 + " poison=" + p + " bound=" + std::to_string(bound) +
+              " c=" + b2 + " bound=" + std::to_string(bound) +
               " off=" + std::to_string(member_offset(&XItem::lnk)) + "," + std::to_string(member_offsetof(XItem, lnk)) + "," + std::to_string(member_offsetof(struct MMObj, hl)) +
               " msize=" + std::to_string(member_sizeof(struct MMObj, la)) + "," + std::to_string(member_sizeof(struct MMObj, sl)) + "," + std::to_string(member_sizeof(struct MMObj, hl)) + "," + std::to_string(sizeof(struct MMObj));
         if (sizeof(dlist_size(&dh)) * CHAR_BIT != 32 || sizeof(xn_.circular_size()) * CHAR_BIT != 64) o.fail("counter widths are not int32 / size_t64");
